@@ -309,6 +309,7 @@ class QuicConnection:
         ]
         self.host_cid = self._host_cids[0].cid
         self._host_cid_seq = 1
+        self._host_cid_seq_sent = 0
         self._local_ack_delay_exponent = 3
         self._local_active_connection_id_limit = 8
         self._local_challenges: dict[bytes, QuicNetworkPath] = {}
@@ -2172,7 +2173,12 @@ class QuicConnection:
                 self._quic_logger.encode_retire_connection_id_frame(sequence_number)
             )
 
-        if sequence_number >= self._host_cid_seq:
+        if sequence_number >= self._host_cid_seq or any(
+            connection_id.sequence_number == sequence_number
+            and not connection_id.was_sent
+            and connection_id.sequence_number > self._host_cid_seq_sent
+            for connection_id in self._host_cids
+        ):
             raise QuicConnectionError(
                 error_code=QuicErrorCode.PROTOCOL_VIOLATION,
                 frame_type=frame_type,
@@ -3424,6 +3430,9 @@ class QuicConnection:
         buf.push_bytes(connection_id.stateless_reset_token)
 
         connection_id.was_sent = True
+        self._host_cid_seq_sent = max(
+            self._host_cid_seq_sent, connection_id.sequence_number
+        )
         self._events.append(events.ConnectionIdIssued(connection_id=connection_id.cid))
 
         # log frame
